@@ -5,10 +5,12 @@ let opt r = match r with Some o -> hx o | None -> "ERR"
 let ivopt s = if s = "x" then None else Some (b s)
 let d13 r = match r with
   | Dec13Ok (t, c) -> Printf.sprintf "%d %s" (int_of_n t) (hx c)
-  | Dec13Err _ -> "ERR"      (* the value left in *outlen on failure is judged by the property oracle (harness side) *)
+  | Dec13Err None -> "ERR"
+  | Dec13Err (Some v) -> "ERR outlen=" ^ hex_of_bign v      (* the value the call leaves in *outlen *)
 let rd13 r = match r with
   | Dec13Ok (t, c) -> hx (record13_plain t c)
-  | Dec13Err _ -> "ERR"
+  | Dec13Err None -> "ERR"
+  | Dec13Err (Some v) -> "ERR outlen=" ^ hex_of_bign v
 let rec iter n f x = if n <= 0 then x else iter (n - 1) f (f x)
 
 let handle ws = match ws with
